@@ -32,6 +32,15 @@ func runKeepAliveExecution(t *testing.T, seed int64, log *traceLog) {
 			DefaultLife: 600, PermTO: 300, ChanTO: 600, MaxLife: 3600, Fam: map[string]int{"A": 4, "B": 4},
 			ListenFam: map[string]int{"c1": 4}, Clients: []string{"c1"}, Users: []string{"u1"}, PeerPorts: []int{1, 2},
 		}
+		// "any number of peers": one execution in eight talks to 160 peers on 160 IPs
+		many := seed%8 == 7 || os.Getenv("VERIF_KA_MANY") != ""
+		if many {
+			meta.Fam = map[string]int{}
+			for i := 0; i < 160; i++ {
+				meta.Fam[fmt.Sprintf("P%03d", i)] = 4
+			}
+			meta.PeerPorts = []int{1}
+		}
 		w, err := NewWorld(meta, seed*4) // variant "plain"
 		if err != nil {
 			t.Fatal(err)
@@ -96,10 +105,19 @@ func runKeepAliveExecution(t *testing.T, seed int64, log *traceLog) {
 		}
 		relay, err := cl.Allocate()
 		if err != nil {
-			t.Fatalf("allocate: %v", err)
+			// every transaction gets at least one transmission through: an Allocate that fails all the same is
+			// a step no specification allows
+			log.add(map[string]any{"e": "Reset", "seed": seed, "loss": lossP})
+			log.add(map[string]any{"e": "AllocateFailed", "err": err.Error()})
+			cl.Close()
+			w.Close()
+			synctest.Wait()
+
+			return
 		}
 		relayAddr, _ := relay.LocalAddr().(*net.UDPAddr)
-		log.add(map[string]any{"e": "Reset", "seed": seed, "loss": lossP})
+		log.add(map[string]any{"e": "Reset", "seed": seed, "loss": lossP, "peers": len(meta.Fam) * len(meta.PeerPorts)})
+
 		horizon := 7800 // 2 h 10 min
 		closeAt := horizon/3 + rng.Intn(horizon*2/3)
 		staleClose := rng.Intn(4) == 0
@@ -110,6 +128,21 @@ func runKeepAliveExecution(t *testing.T, seed int64, log *traceLog) {
 		}
 		written := map[string]bool{}
 		peerKeys := []string{"A/1", "A/2", "B/1", "B/2"}
+		if many {
+			peerKeys = peerKeys[:0]
+			for i := 0; i < 160; i++ {
+				peerKeys = append(peerKeys, fmt.Sprintf("P%03d/1", i))
+			}
+		}
+		if many { // the application talks to every peer once, early
+			for _, k := range peerKeys {
+				pa, _ := w.peers[k].LocalAddr().(*net.UDPAddr)
+				_, _ = relay.WriteTo([]byte("hello|"+k), pa)
+				synctest.Wait()
+				w.peers[k].Drain()
+				written[k] = true
+			}
+		}
 		pn := 0
 		probeOut := func(k string) {
 			pn++
@@ -170,7 +203,10 @@ func runKeepAliveExecution(t *testing.T, seed int64, log *traceLog) {
 				time.Sleep(time.Duration(rng.Intn(200)) * time.Second)
 				relay, err = cl.Allocate()
 				if err != nil {
-					t.Fatalf("second allocate: %v", err)
+					log.add(map[string]any{"e": "AllocateFailed", "err": err.Error()})
+					closed = true
+
+					break
 				}
 				relayAddr, _ = relay.LocalAddr().(*net.UDPAddr)
 				written = map[string]bool{}
